@@ -7,8 +7,11 @@ package main
 import (
 	"bytes"
 	"crypto"
+	"crypto/rsa"
+	"fmt"
 	"math/rand"
 
+	"github.com/cloudflare/circl/blindsign/blindrsa/partiallyblindrsa"
 	"github.com/cloudflare/circl/cipher/ascon"
 	"github.com/cloudflare/circl/ecc/bls12381"
 	"github.com/cloudflare/circl/expander"
@@ -45,6 +48,11 @@ func argsGuard(path string, rng *rand.Rand, reps int) {
 	mpk, _ := mlkem768.NewKeyFromSeed(vlib.Bytes(rng, 64))
 	hsuite := hpke.NewSuite(hpke.KEM_X25519_HKDF_SHA256, hpke.KDF_HKDF_SHA256, hpke.AEAD_AES128GCM)
 	hpk, _ := hpke.KEM_X25519_HKDF_SHA256.Scheme().DeriveKeyPair(vlib.Bytes(rng, 32))
+	pbKey, err := rsa.GenerateKey(vlib.SeededReader{R: rng}, 2048)
+	if err != nil {
+		vlib.Die("rsa.GenerateKey: %v", err)
+	}
+	pbVerifier := partiallyblindrsa.NewVerifier(&pbKey.PublicKey, crypto.SHA384)
 	type fn struct {
 		name string
 		lens []int // lengths of the byte-slice arguments (0 = random small)
@@ -101,6 +109,10 @@ func argsGuard(path string, rng *rand.Rand, reps int) {
 				panic(err)
 			}
 			return append(append(enc, ct...), sealer.Export(a[0], 16)...)
+		}},
+		{"partiallyblindrsa.Verify(msg,metadata,sig)", []int{-1, 8, 256}, func(a [][]byte) []byte {
+			err := pbVerifier.Verify(a[0], a[1], a[2])
+			return []byte(fmt.Sprint(err))
 		}},
 		{"ascon128.Seal(nonce,pt,ad)", []int{16, -1, -1}, func(a [][]byte) []byte {
 			c, err := ascon.New(bytes.Repeat([]byte{3}, 16), ascon.Ascon128)
